@@ -36,10 +36,11 @@ import (
 // Beware when accessing the Replacer value; it may be nil!
 type ResponseRecorder struct {
 	*ResponseWriterWrapper
-	Replacer Replacer
-	status   int
-	size     int
-	start    time.Time
+	Replacer    Replacer
+	status      int
+	size        int
+	start       time.Time
+	wroteHeader bool
 }
 
 // NewResponseRecorder makes and returns a new ResponseRecorder.
@@ -55,15 +56,26 @@ func NewResponseRecorder(w http.ResponseWriter) *ResponseRecorder {
 }
 
 // WriteHeader records the status code and calls the
-// underlying ResponseWriter's WriteHeader method.
+// underlying ResponseWriter's WriteHeader method. The status
+// recorded is the one the client receives: once the header is
+// out (explicitly, or implicitly by a Write), later calls are
+// ignored by net/http and do not change the record either.
+// Informational (1xx) headers precede the final status and
+// are not recorded.
 func (r *ResponseRecorder) WriteHeader(status int) {
-	r.status = status
+	informational := status >= 100 && status <= 199 && status != http.StatusSwitchingProtocols
+	if !r.wroteHeader && !informational {
+		r.status = status
+		r.wroteHeader = true
+	}
 	r.ResponseWriterWrapper.WriteHeader(status)
 }
 
 // Write is a wrapper that records the size of the body
 // that gets written.
 func (r *ResponseRecorder) Write(buf []byte) (int, error) {
+	// the first Write sends the header with the status recorded so far
+	r.wroteHeader = true
 	n, err := r.ResponseWriterWrapper.Write(buf)
 	if err == nil {
 		r.size += n
